@@ -5,7 +5,7 @@ MODELS = ["Functionals", "Constants", "Atmos", "AtmosTable"]
 STREAMS = [functionals.stream_scalar_functionals, functionals.stream_moment, functionals.stream_atmos]
 ORACLES = [c17.oracle_functionals, c17.oracle_atmosphere]
 UNPROVED = ["ideal-gas / speed-of-sound consistency BETWEEN knots is validated numerically only (each column is interpolated separately); at the knots it is proved exhaustively",
-            "hand-derived partials of TotalLiftDrag/Equilibrium/Breguet/CenterOfGravity are compared with the model's formulas here and proved to be derivatives under C01"]
+            "the partials of TotalLiftDrag / Equilibrium / Breguet / CenterOfGravity / Reynolds are theorems of C01 (dual-number evaluation); here the hand-written formula models are only compared with the code"]
 ASSUMPTIONS = [
     "theorems over R (and exact Q for the table); models tied to TotalLiftDrag, SumAreas, Equilibrium, BreguetRange, CenterOfGravity, ReynoldsComp, MomentCoefficient, AtmosComp by differential execution (1-3 surfaces; Akima model vs scipy at random altitudes, all knots' neighbours)",
     "scipy's Akima1DInterpolator is modelled from its source (method='akima', no extrapolation)",
